@@ -92,6 +92,7 @@ struct Engine {
 	void install_config(const J &cfg);
 	void run_phase(const J &ph);
 	void run_bus_events(const J &events);
+	void topo_event(const J &event);
 };
 
 extern Engine *g_engine;
